@@ -7,7 +7,8 @@ stages: translate estimator.pyx -> Gallina (dist_haversine; tie 1) ; theorems pr
         fit's lag conversion, the compiled estimator's haversine bin membership) ; probes of the property
         statement on the implementation (sphere, chord = haversine against 40-digit mpmath, vario_estimate bin
         membership vs the model's geometry, geo_scale consistency, Krige / SRF / CondSRF vs cov_yadrenko and vs
-        the 3-D pipelines, kriging under random rotations of the sphere, round trips, time axis, fit)."""
+        the 3-D pipelines, kriging under random rotations of the sphere, round trips, time axis, fit, the documented
+        bounding-box rule of standard_bins and its symmetries, unit consistency of Krige(fit_variogram=True) + CondSRF)."""
 import json
 import math
 
@@ -872,6 +873,145 @@ def probe_fit(ctx, rng, n_cases):
                  "probe:fit")
 
 
+def bins_point_sets(rng):
+    """lat-lon point sets with the extents the default-bin rule must see: north-south transects across the equator, mid-latitude
+    regions, sets straddling the date line, polar caps, a single parallel, whole-sphere scatter"""
+    n = int(rng.integers(5, 30))
+    a = float(rng.uniform(5, 80))
+    lo0 = float(rng.uniform(-180, 180))
+    sets = {
+        "meridian-transect-across-equator": (np.linspace(-a, a, n), np.full(n, lo0)),
+        "equator-transect": (np.zeros(n), lo0 + np.linspace(-a, a, n)),
+        "mid-latitude-region": (rng.uniform(30, 30 + a / 2, n), lo0 + rng.uniform(0, a / 2, n)),
+        "date-line-region": (rng.uniform(-a / 2, a / 2, n), 180.0 + rng.uniform(-a / 2, a / 2, n)),
+        "polar-cap": (90.0 - np.abs(rng.uniform(0, a / 2, n)), rng.uniform(-180, 180, n)),
+        "south-pole-transect": (np.concatenate([[-90.0], -90 + np.abs(rng.uniform(0, a, n - 1))]), np.full(n, lo0)),
+        "one-parallel": (np.full(n, float(rng.uniform(-70, 70))), lo0 + rng.uniform(0, a, n)),
+        "whole-sphere": (np.degrees(np.arcsin(rng.uniform(-1, 1, n))), rng.uniform(-540, 540, n)),
+    }
+    return sets
+
+
+def rule_max_dist(lat, lon, g):
+    """documented rule, restated independently: a third of the great-circle distance that belongs to the diameter (diagonal) of the
+    bounding box of the 3-D points on the sphere of radius geo_scale"""
+    la, lo = np.radians(lat), np.radians(lon)
+    p = g * np.array([np.cos(la) * np.cos(lo), np.cos(la) * np.sin(lo), np.sin(la)])
+    diag = float(np.linalg.norm(p.max(axis=1) - p.min(axis=1)))
+    x = min(diag / (2 * g), 1.0)
+    # conditioning of arcsin (see corr_bins_fit)
+    tol = 1e-12 + 8e-16 / math.sqrt(max(1 - x * x, 4e-16))
+    return 2 * g * math.asin(x) / 3, tol
+
+
+def probe_bins(ctx, rng, n_cases):
+    """standard_bins(latlon=True) on the implementation: documented bounding-box rule in every unit, Sturges bin count, uniform
+    edges from 0; invariance under the symmetries of the rule (signed permutations of the 3-D axes = rotations/reflections of the
+    sphere that map the bounding box onto a bounding box), e.g. a meridian transect and the same transect laid on the equator"""
+    import gstools as gs
+    import itertools
+    gsc = geo_scales()
+    perms = [(pm, sg) for pm in itertools.permutations(range(3)) for sg in itertools.product((1.0, -1.0), repeat=3)]
+    for it in range(n_cases):
+        sets = bins_point_sets(rng)
+        for sname, (lat, lon) in sets.items():
+            gname = GEO_NAMES[int(rng.integers(4))]
+            g = gsc[gname]
+            n = len(lat)
+            ctx.count(("standard_bins-rule", sname, gname), hist=dict(probe="standard_bins rule", geo_scale=gname, point_set=sname))
+            case = dict(point_set=sname, geo_scale=g, lat=hexl(lat), lon=hexl(lon), lat_dec=[float(v) for v in lat], lon_dec=[float(v) for v in lon])
+            try:
+                edges = gs.standard_bins((lat, lon), latlon=True, geo_scale=g)
+            except Exception as e:
+                viol(ctx, "probe: standard_bins raises", "standard_bins(latlon=True) raised %r" % (e,), case, "probe:exception")
+                continue
+            md, tol = rule_max_dist(lat, lon, g)
+            nb = int(np.ceil(2 * np.log2(n) + 1))
+            ok = (len(edges) == nb + 1 and edges[0] == 0.0 and abs(edges[-1] - md) <= tol * math.pi * g
+                  and agree(edges, np.linspace(0, edges[-1], nb + 1), max(edges[-1], 1e-300), 1e-13))
+            if not ok:
+                viol(ctx, "probe: standard_bins(latlon) bounding-box rule",
+                     "default lat-lon bins do not end at a third of the great-circle diameter of the 3-D bounding box of the points "
+                     "(or wrong count / spacing)", dict(case, edges=hexl(edges), max_edge=float(edges[-1]), expected_max_edge=md, expected_bins=nb),
+                     "probe:standard-bins-rule")
+            # symmetry of the rule
+            pm, sg = perms[int(rng.integers(len(perms)))]
+            m = gs.Gaussian(latlon=True, geo_scale=g, len_scale=g)
+            x = m.isometrize(np.vstack([lat, lon]))
+            y = np.array([sg[k] * x[pm[k]] for k in range(3)])
+            ll2 = m.anisometrize(y)
+            e2 = gs.standard_bins((ll2[0], ll2[1]), latlon=True, geo_scale=g)
+            if not (len(e2) == len(edges) and abs(e2[-1] - edges[-1]) <= (2 * tol + 1e-9) * math.pi * g):
+                viol(ctx, "probe: standard_bins(latlon) under a symmetry of the sphere",
+                     "default bins change when the point set is rotated/reflected by a signed permutation of the 3-D axes "
+                     "(e.g. a meridian transect laid onto the equator)",
+                     dict(case, permutation=list(pm), signs=list(sg), lat2=[float(v) for v in ll2[0]], lon2=[float(v) for v in ll2[1]],
+                          max_edge=float(edges[-1]), max_edge_rotated=float(e2[-1])), "probe:standard-bins-symmetry")
+
+
+def probe_autofit(ctx, rng, n_cases):
+    """Krige(fit_variogram=True) (+ CondSRF on top) on the same lat-lon data in every unit: the fitted model must be the same physical
+    model (len_scale / geo_scale, var, nugget), equal to the manual vario_estimate + fit_variogram workflow, and the kriged / conditioned
+    fields must coincide"""
+    import gstools as gs
+    gsc = geo_scales()
+    for it in range(n_cases):
+        cls = [gs.Exponential, gs.Gaussian][it % 2]
+        n = int(rng.integers(60, 100))
+        lat = np.degrees(np.arcsin(rng.uniform(-1, 1, n)))
+        lon = rng.uniform(-180, 180, n)
+        truth = cls(latlon=True, len_scale=float(rng.uniform(0.3, 0.6)), var=float(rng.uniform(0.7, 1.5)))
+        seed = int(rng.integers(1, 10 ** 6))
+        val = gs.SRF(truth, seed=seed, mode_no=128)((lat, lon))
+        tla, tlo = gen_latlon(rng, 6)
+        res = {}
+        case = dict(model=cls.__name__, lat=hexl(lat), lon=hexl(lon), val=hexl(val), tgt=[hexl(tla), hexl(tlo)])
+        try:
+            for gname in GEO_NAMES:
+                g = gsc[gname]
+                ctx.count(("autofit", gname, cls.__name__), hist=dict(probe="Krige auto-fit units", geo_scale=gname))
+                m = cls(latlon=True, geo_scale=g, len_scale=0.5 * g)
+                k = gs.krige.Ordinary(m, (lat, lon), val, fit_variogram=True)
+                f, v = k((tla, tlo))
+                cs = gs.CondSRF(k, seed=seed, mode_no=64)((tla, tlo))
+                m2 = cls(latlon=True, geo_scale=g, len_scale=0.5 * g)
+                bc, gam = gs.vario_estimate((lat, lon), val, latlon=True, geo_scale=g)
+                m2.fit_variogram(bc, gam, sill=np.var(val))
+                res[gname] = dict(ls=float(m.len_scale / g), var=float(m.var), nug=float(m.nugget), f=f, v=v, cs=cs,
+                                  cond=float(np.linalg.cond(raw_krige_system(k, (tla, tlo))[0])) if gname == "radian" else None,
+                                  ls2=float(m2.len_scale / g), var2=float(m2.var), nug2=float(m2.nugget))
+        except Exception as e:
+            viol(ctx, "probe: Krige auto-fit raises", "Krige(fit_variogram=True) on lat-lon data raised %r" % (e,), case, "probe:exception")
+            continue
+        r0 = res["radian"]
+        sc = float(np.abs(val).max() + 1.0)
+        for gname in GEO_NAMES:
+            r = res[gname]
+            summ = {k2: {q: res[k2][q] for q in ("ls", "var", "nug", "ls2", "var2", "nug2")} for k2 in res}
+            # same calls, same data: the manual workflow must give the same fit (identical up to rounding)
+            if not (abs(r["ls"] - r["ls2"]) <= 1e-9 * r["ls2"] and abs(r["var"] - r["var2"]) <= 1e-9 * (r["var2"] + 1) and abs(r["nug"] - r["nug2"]) <= 1e-9):
+                viol(ctx, "probe: Krige auto-fit vs manual vario_estimate + fit_variogram",
+                     "Krige(fit_variogram=True) fits another model than vario_estimate(latlon, geo_scale) + fit_variogram on the same data "
+                     "(unit %s)" % gname, dict(case, geo_scale=gsc[gname], fits=summ), "probe:autofit-manual")
+            # across units the optimiser stops within ~2e-5 (measured) of the same optimum; a unit mix-up is a factor geo_scale
+            d = abs(r["ls"] - r0["ls"]) / r0["ls"] + abs(r["var"] - r0["var"]) / (r0["var"] + 1) + abs(r["nug"] - r0["nug"])
+            if not d <= 1e-3:
+                viol(ctx, "probe: Krige auto-fit unit consistency", "fitted len_scale / geo_scale (var, nugget) depend on the unit (%s vs radian)" % gname,
+                     dict(case, geo_scale=gsc[gname], fits=summ), "probe:autofit-units")
+                continue
+            # fields follow the fitted parameters (sensitivity of kriging ~ 1, of the spectral part ~ 10 (phase ~ radius / len_scale));
+            # only decidable for a well conditioned system: Gaussian-type covariances give condition numbers ~ 1e15, where a
+            # nugget of 1e-9 vs 1e-15 (optimiser noise) legitimately changes the pseudo-inverse solution
+            if r0["cond"] > 1e5:
+                ctx.count(None, hist=dict(probe="Krige auto-fit fields skipped (ill-conditioned system)"))
+                continue
+            tolf = (1e-7 + 100 * d) * sc
+            if not (np.abs(r["f"] - r0["f"]).max() <= tolf and np.abs(r["v"] - r0["v"]).max() <= tolf * (r0["var"] + 1)
+                    and np.abs(r["cs"] - r0["cs"]).max() <= tolf * 3 + 8 * math.sqrt(max(r["nug"], r0["nug"], 0.0))):   # + nugget noise sqrt(nugget) N(0,1)
+                viol(ctx, "probe: Krige auto-fit fields unit consistency", "kriged / conditioned fields after auto-fit depend on the unit (%s vs radian)" % gname,
+                     dict(case, geo_scale=gsc[gname], fits=summ, field=hexl(r["f"]), field_radian=hexl(r0["f"])), "probe:autofit-fields")
+
+
 # ---------------------------------------------------------------------------------------------- run
 def run(ctx):
     rng = C.Rng(ctx.seed, "C13")
@@ -951,6 +1091,8 @@ def run(ctx):
         stage("probe_pipelines", probe_pipelines, ctx, rng, 600 if thorough else 40)
         stage("probe_time_axis", probe_time_axis, ctx, rng, 2000 if thorough else 160)
         stage("probe_fit", probe_fit, ctx, rng, 80 if thorough else 8)
+        stage("probe_bins", probe_bins, ctx, rng, 200 if thorough else 25)
+        stage("probe_autofit", probe_autofit, ctx, rng, 40 if thorough else 4)
         ctx.notes.append("stage seconds: %s" % json.dumps(timing))
         C.log("[C13] stage seconds: %s" % json.dumps(timing))
     finally:
